@@ -6,7 +6,9 @@
   `self` is the model's record `Evse.Evse K` (`_ev`, `_current_pilot`, `_station_id`); the abstract
   `self._valid_rate(pilot)` (subclass dispatch, default tolerance) is the model's `validRate` on the EVSE's class
   (tied per class in CodeTieEvse), `self._ev.charge(..)` is `Evse.Ev.charge` with the noise draw `ν` as an input
-  (tied in CodeTieBattery); `self._ev.charge` on `None` would be `AttributeError`, `raise` is `.error .<class>`.
+  (tied in CodeTieBattery); `self._ev.charge` on `None` would be `AttributeError`, `raise` is `.error .<class>`,
+  and a raising method returns the EVSE as it is at the raise (`set_pilot` has already stored the pilot when
+  `EV.charge` raises — `evse_set_pilot_err`).
 
   A pilot stored after instead of before the validity test, a dropped `_current_pilot = 0` in `unplug`, `is not None`
   for `is None` in `plugin`, a swallowed exception … change `Gen.Code.*` and the theorems below stop compiling.
